@@ -50,7 +50,7 @@ OUTCOMES = ('ok', 'cfgerr', 'routes', 'spacing', 'warmup', 'init', 'first', 'idl
 DIMS = ('ex', 'typ', 'lev', 'mode', 'fee', 'bal', 'warm', 'rt', 'sim', 'hp')
 # the hyperparameters argument; the strategies declare three names, the probe's with other defaults than the
 # earlier sessions' (a default written into a shared dict by one session would be used by the next)
-HP = {'none': None, 'full': {'every': 9, 'tp': 3, 'hold': 4}, 'part': {'every': 9}}
+HP = {'none': None, 'full': {'every': 9, 'tp': 2, 'hold': 5}, 'part': {'every': 9}}
 HP_DEFAULTS_PROBE = {'every': 9, 'tp': 3, 'hold': 4}
 HP_DEFAULTS_EARLIER = {'every': 9, 'tp': 2, 'hold': 6}
 
